@@ -1,6 +1,7 @@
 package main
 
 import (
+	"os"
 	"regexp"
 	"fmt"
 	"go/token"
@@ -1049,6 +1050,9 @@ func (s *pSite) emitContexts() []emitCtx {
 				if o := callee.Origin(); o != nil {
 					callee = o
 				}
+				if os.Getenv("ROVC_DEBUG") == "3" && strings.Contains(callee.Name(), "zipAll") {
+					fmt.Fprintf(os.Stderr, "P4-HELPER %s blocks=%v parent=%v pkg=%v subpkg=%v\n", callee.Name(), callee.Blocks != nil, callee.Parent() != nil, callee.Pkg, s.Subscribe.Pkg)
+				}
 				if callee.Blocks == nil || callee.Parent() != nil || callee.Signature.Recv() != nil || callee.Pkg == nil || s.Subscribe.Pkg == nil || callee.Pkg != s.Subscribe.Pkg {
 					continue
 				}
@@ -1057,6 +1061,9 @@ func (s *pSite) emitContexts() []emitCtx {
 					if s.isDest(a) {
 						getsDest = true
 					}
+				}
+				if os.Getenv("ROVC_DEBUG") == "3" && strings.Contains(callee.Name(), "zipAll") {
+					fmt.Fprintf(os.Stderr, "P4-HELPER getsDest=%v\n", getsDest)
 				}
 				if !getsDest {
 					continue
@@ -1073,9 +1080,16 @@ func (s *pSite) emitContexts() []emitCtx {
 									}
 								}
 								// a helper that calls another subscribing helper in a loop
-								if f2 := c2.Common().StaticCallee(); f2 != nil && f2.Pkg == callee.Pkg && f2.Blocks != nil && inLoop(c2) {
+								f2 := c2.Common().StaticCallee()
+								if f2 != nil && f2.Origin() != nil {
+									f2 = f2.Origin() // an instantiation of a generic helper has no package of its own
+								}
+								if os.Getenv("ROVC_DEBUG") == "3" && f2 != nil && strings.Contains(callee.Name(), "zipAll") {
+									fmt.Fprintf(os.Stderr, "P4-HELPER inner %s pkgsame=%v blocks=%v inloop=%v\n", f2.Name(), f2.Pkg == callee.Pkg, f2.Blocks != nil, inLoop(c2))
+								}
+								if f2 != nil && f2.Pkg == callee.Pkg && f2.Blocks != nil && inLoop(c2) {
 									for _, a := range c2.Common().Args {
-										if p, ok := a.(*ssa.Parameter); ok && hasMethod(p.Type(), "NextWithContext") {
+										if isParamValue(a, callee) && (hasMethod(a.Type(), "NextWithContext") || hasMethod(a.Type(), "ErrorWithContext") || hasMethod(stripIface(a).Type(), "NextWithContext")) {
 											subscribes, inLoopSub = true, true
 										}
 									}
@@ -1619,4 +1633,51 @@ func returnsOperator(fn *ssa.Function) bool {
 	}
 	isObs := func(t types.Type) bool { return namedName(t) == "Observable" || namedName(t) == "ConnectableObservable" }
 	return isObs(sig.Params().At(0).Type()) && isObs(sig.Results().At(0).Type())
+}
+
+// isParamValue: v is a parameter of fn, possibly through an interface conversion or through the cell a captured
+// parameter lives in.
+func isParamValue(v ssa.Value, fn *ssa.Function) bool {
+	for {
+		switch t := v.(type) {
+		case *ssa.ChangeInterface:
+			v = t.X
+			continue
+		case *ssa.ChangeType:
+			v = t.X
+			continue
+		case *ssa.MakeInterface:
+			v = t.X
+			continue
+		case *ssa.Parameter:
+			return true
+		case *ssa.UnOp:
+			if t.Op == token.MUL {
+				if al, ok := t.X.(*ssa.Alloc); ok {
+					for _, p := range fn.Params {
+						if p.Name() == al.Comment {
+							return true
+						}
+					}
+				}
+			}
+		}
+		return false
+	}
+}
+
+// stripIface: the value under interface conversions.
+func stripIface(v ssa.Value) ssa.Value {
+	for {
+		switch t := v.(type) {
+		case *ssa.ChangeInterface:
+			v = t.X
+		case *ssa.MakeInterface:
+			v = t.X
+		case *ssa.ChangeType:
+			v = t.X
+		default:
+			return v
+		}
+	}
 }
